@@ -173,7 +173,10 @@ def normalize_piece_length(piece_length: int) -> int:
     """
     if isinstance(piece_length, str):
         if piece_length.isascii() and piece_length.isdecimal():
-            piece_length = int(piece_length)
+            try:
+                piece_length = int(piece_length)
+            except ValueError as err:  # more digits than int() converts
+                raise PieceLengthValueError(piece_length) from err
         else:
             raise PieceLengthValueError(piece_length)
 
